@@ -5,12 +5,13 @@ pub open spec fn tv(t: Token) -> GTok {
     GTok { is_element: t.kind is Element, start: t.start as int, byte_start: t.byte_start as int, end: t.end as int, byte_end: t.byte_end as int }
 }
 pub open spec fn tvs(ts: Seq<Token>) -> Seq<GTok> { Seq::new(ts.len(), |i: int| tv(ts[i])) }
-/// the token's offsets are in bounds and on character boundaries (so `&source[byte_start..byte_end]` cannot panic)
-/// and an element token carries the configured delimiters. (vstd gives no usable postcondition for str slicing,
-/// so `value == source[byte_start..byte_end]` is NOT part of the contract.)
+/// the token's offsets are in bounds and on character boundaries (so `&source[byte_start..byte_end]` cannot panic),
+/// its text is exactly that slice of the source (through the assumed std contract of str slicing, rule R14),
+/// and an element token carries the configured delimiters.
 pub open spec fn tok_ok(t: Token, b: Seq<u8>, ds: &str, de: &str) -> bool {
     &&& t.byte_start <= t.byte_end <= b.len()
     &&& cb(b, t.byte_start as int) && cb(b, t.byte_end as int)
+    &&& t.value.spec_bytes() == b.subrange(t.byte_start as int, t.byte_end as int)
     &&& t.kind matches TokenKind::Element(e) ==> e.delimiter_start == ds && e.delimiter_end == de
 }
 pub open spec fn toks_ok(ts: Seq<Token>, b: Seq<u8>, ds: &str, de: &str) -> bool {
@@ -29,3 +30,39 @@ pub open spec fn no_adjacent_text(ts: Seq<Token>) -> bool {
     forall|i: int| 0 <= i < ts.len() - 1 ==> !((#[trigger] ts[i]).kind is Text && ts[i + 1].kind is Text)
 }
 
+
+/// C07: the texts of the first n tokens, concatenated (as bytes)
+pub open spec fn tok_concat(ts: Seq<Token>, n: int) -> Seq<u8>
+    decreases n,
+{
+    if n <= 0 { Seq::empty() } else { tok_concat(ts, n - 1) + ts[n - 1].value.spec_bytes() }
+}
+/// tokens that are slices of the source and partition it concatenate to the source
+pub proof fn lemma_tok_concat(ts: Seq<Token>, cs: Seq<char>, b: Seq<u8>, ds: &str, de: &str, n: int)
+    requires toks_ok(ts, b, ds, de), tok_chain(ts, cs, cs.len() as int), b == encode_utf8(cs), 0 <= n <= ts.len(),
+    ensures tok_concat(ts, n) == b.subrange(0, if n == 0 { 0 } else { ts[n - 1].byte_end as int }),
+        n == ts.len() ==> tok_concat(ts, n) == b,
+    decreases n,
+{
+    lemma_char_pos_mono(cs, 0, cs.len() as int);
+    if n == 0 {
+        assert(tok_concat(ts, 0) =~= b.subrange(0, 0));
+        if ts.len() == 0 { assert(b =~= b.subrange(0, 0)); }
+    } else {
+        lemma_tok_concat(ts, cs, b, ds, de, n - 1);
+        let t = ts[n - 1];
+        assert(tok_ok(t, b, ds, de));
+        if n >= 2 {
+            assert(tok_ok(ts[n - 2], b, ds, de));
+            assert(ts[n - 2].end == ts[n - 2 + 1].start);
+            assert(ts[n - 2].byte_end == t.byte_start);
+        } else {
+            assert(t.byte_start == 0);
+        }
+        assert(tok_concat(ts, n) =~= b.subrange(0, t.byte_end as int));
+        if n == ts.len() {
+            assert(t.byte_end == b.len());
+            assert(b.subrange(0, b.len() as int) =~= b);
+        }
+    }
+}
